@@ -41,6 +41,15 @@ class Undecided(Exception):
     pass
 
 
+class TRUNC(sp.Function):
+    """int(u): truncation towards zero, kept unevaluated for symbolic arguments."""
+
+    @classmethod
+    def eval(cls, u):
+        if u.is_Number:
+            return sp.Integer(int(u))
+
+
 class Algebra:
     """Generator registry + normal form + derivative."""
 
@@ -80,6 +89,8 @@ class Algebra:
                 r = sp.Pow(av, ev(unit))
             elif kind == "L":
                 r = sp.log(av)
+            elif kind == "C":
+                r = sp.Integer(int(av))      # int(): truncation towards zero
             else:
                 r = sp.exp(av)
             memo[s] = sp.N(r, prec)
@@ -129,6 +140,11 @@ class Algebra:
             return self.glog(self.nf(e.args[0]))
         if isinstance(e, sp.exp):
             return self.gexp(self.nf(e.args[0]))
+        if isinstance(e, TRUNC):
+            a = self.nf(e.args[0])
+            if self.x in a.free_symbols:
+                raise Undecided("integer part of an expression in the variable")
+            return self._gen("C", sp.cancel(a))     # an opaque constant: int(k) is not k
         raise Undecided(f"unsupported function {type(e).__name__}")
 
     def _factors(self, u):
@@ -258,6 +274,8 @@ class Algebra:
             return unit * self.D(a) / a * s
         if kind == "L":
             return self.D(a) / a
+        if kind == "C":
+            return sp.Integer(0)
         return self.D(a) * s
 
     def zero(self, e):
@@ -271,7 +289,9 @@ class Algebra:
         for s in e.free_symbols:
             if s in self.info:
                 kind, a, unit = self.info[s]
-                if kind == "G":
+                if kind == "C":
+                    txt = f"int({self.show(a, 60)})"
+                elif kind == "G":
                     txt = f"({self.show(a, 60)})**({self.show(unit, 30)})"
                 elif kind == "L":
                     txt = f"log({self.show(a, 60)})"
@@ -299,6 +319,26 @@ class Formula:
         self.alg = alg
         self.opaque = set(opaque)   # method names kept as opaque function symbols (generic formulas)
         self.opaque_syms = {}
+        # fields computed by the constructor from its arguments (`self._two_m = 2**m`) are replaced by
+        # their defining expressions; a field that stores an argument as it is becomes a parameter symbol
+        self.init_defs = {}
+        self.init_env = {}
+        init = repo.resolve_method(cls, "__init__")
+        if init is not None:
+            direct = {}
+            for st in strip_docstring(init.node.body):
+                if isinstance(st, ast.Assign):
+                    tgts = st.targets[0].elts if isinstance(st.targets[0], ast.Tuple) else [st.targets[0]]
+                    vals = st.value.elts if isinstance(st.targets[0], ast.Tuple) and isinstance(st.value, ast.Tuple) \
+                        and len(st.value.elts) == len(tgts) else [st.value] * len(tgts)
+                    for t_, v_ in zip(tgts, vals):
+                        if isinstance(t_, ast.Attribute) and norm(t_.value) == "self":
+                            if isinstance(v_, ast.Name) and v_.id in init.params:
+                                direct.setdefault(v_.id, t_.attr)
+                            else:
+                                self.init_defs[t_.attr] = v_
+            for p_ in init.params[1:]:
+                self.init_env[p_] = alg.param(direct.get(p_, p_).lstrip("_"))
 
     def field(self, name):
         # `self.b` spelled through a trivial property is the field `_b`
@@ -310,6 +350,11 @@ class Formula:
                 name = body[0].value.attr
             else:
                 raise Undecided(f"property {self.cls}.{name} is not a plain field getter")
+        if name in self.init_defs:
+            v = self.init_defs[name]
+            if isinstance(v, (ast.BinOp, ast.UnaryOp, ast.Call)) or (isinstance(v, ast.Constant) and
+                                                                     isinstance(v.value, (int, float)) and not isinstance(v.value, bool)):
+                return self.ev(v, dict(self.init_env), 0)
         return self.alg.param(name.lstrip("_"))
 
     def call_method(self, name, arg, depth):
@@ -467,6 +512,8 @@ class Formula:
                 return sp.Pow(self.ev(e.args[0], env, depth), self.ev(e.args[1], env, depth))
             if fn in ("np.square",) and len(e.args) == 1:
                 return self.ev(e.args[0], env, depth) ** 2
+            if fn in ("int", "np.trunc", "math.trunc", "np.fix") and len(e.args) == 1:
+                return TRUNC(self.ev(e.args[0], env, depth))
             if fn in IDENT_CALLS and len(e.args) == 1:
                 return self.ev(e.args[0], env, depth)
             if fn in ONES:
